@@ -141,8 +141,35 @@ class Normalizer(ast.NodeTransformer):
                 break
         return node
 
+    def visit_Expr(self, node):
+        self.generic_visit(node)
+        c = node.value
+        # setattr(x, "name", v)  ->  x.name = v
+        if isinstance(c, ast.Call) and isinstance(c.func, ast.Name) and c.func.id == "setattr" and len(c.args) == 3 and not c.keywords and isinstance(c.args[1], ast.Constant) and isinstance(c.args[1].value, str) and c.args[1].value.isidentifier():
+            return ast.copy_location(ast.Assign(targets=[ast.Attribute(value=c.args[0], attr=c.args[1].value, ctx=ast.Store())], value=c.args[2]), node)
+        return node
+
     def visit_For(self, node):
         self.generic_visit(node)
+        # for k in ("a", "b", "c"): <a few simple statements>   ->   the statements once per constant
+        if (
+            isinstance(node.iter, (ast.Tuple, ast.List)) and 1 <= len(node.iter.elts) <= 8 and all(isinstance(e, ast.Constant) and isinstance(e.value, (str, int)) for e in node.iter.elts)
+            and isinstance(node.target, ast.Name) and not node.orelse and len(node.body) <= 3
+            and all(isinstance(b, (ast.Expr, ast.Assign)) for b in node.body)
+            and not any(isinstance(n, ast.Name) and n.id == node.target.id and isinstance(n.ctx, ast.Store) for b in node.body for n in ast.walk(b))
+        ):
+            tgt = node.target.id
+            out = []
+            for e in node.iter.elts:
+                class _S(ast.NodeTransformer):
+                    def visit_Name(s_, n):
+                        return copy.deepcopy(e) if n.id == tgt and isinstance(n.ctx, ast.Load) else n
+
+                for b in node.body:
+                    nb = _S().visit(copy.deepcopy(b))
+                    nb = self.visit(nb)  # setattr / getattr with the now constant name
+                    out.extend(nb if isinstance(nb, list) else [nb])
+            return out
         # accumulation loop -> sum(...)
         if len(node.body) == 1 and not node.orelse and isinstance(node.body[0], ast.Assign) and len(node.body[0].targets) == 1 and isinstance(node.body[0].targets[0], ast.Name):
             st = node.body[0]
@@ -241,6 +268,9 @@ class Normalizer(ast.NodeTransformer):
 
     def visit_Call(self, node):
         self.generic_visit(node)
+        # getattr(x, "name") -> x.name
+        if isinstance(node.func, ast.Name) and node.func.id == "getattr" and len(node.args) == 2 and not node.keywords and isinstance(node.args[1], ast.Constant) and isinstance(node.args[1].value, str) and node.args[1].value.isidentifier():
+            return ast.copy_location(ast.Attribute(value=node.args[0], attr=node.args[1].value, ctx=ast.Load()), node)
         # (f if c else g)(args) -> f(args) if c else g(args) ;  attrgetter("a")(x) -> x.a
         if isinstance(node.func, ast.IfExp):
             f = node.func
